@@ -30,12 +30,12 @@ var untaintedResults = map[string]struct {
 	idx    int
 	reason string
 }{
-	mod + "/crypto/hkdf.Sha512#1":          {1, "HKDF-SHA-512 with a 32-byte output never fails; the error does not depend on the inputs' content"},
-	mod + "/crypto.ED25519Signature#1":     {1, "fails only for a private key of the wrong length; the key is the device's own"},
-	mod + "/crypto.NewSecureSessionFromSharedKey#1": {1, "only HKDF errors, see hkdf.Sha512"},
-	"(*" + mod + "/crypto.secureSession).Encrypt#1": {1, "sealing with a 32-byte key and 8-byte nonce never fails"},
+	mod + "/crypto/hkdf.Sha512#1":                     {1, "HKDF-SHA-512 with a 32-byte output never fails; the error does not depend on the inputs' content"},
+	mod + "/crypto.ED25519Signature#1":                {1, "fails only for a private key of the wrong length; the key is the device's own"},
+	mod + "/crypto.NewSecureSessionFromSharedKey#1":   {1, "only HKDF errors, see hkdf.Sha512"},
+	"(*" + mod + "/crypto.secureSession).Encrypt#1":   {1, "sealing with a 32-byte key and 8-byte nonce never fails"},
 	mod + "/crypto/chacha20poly1305.EncryptAndSeal#2": {2, "fails only for wrong key/nonce sizes, which are fixed arrays at every call site"},
-	"io.ReadFull#0":                         {0, "the count is bounded by len(buf) by contract"},
+	"io.ReadFull#0": {0, "the count is bounded by len(buf) by contract"},
 }
 
 func newTaint(p *core.Program, funcs map[*ssa.Function]bool) *taintState {
